@@ -187,7 +187,10 @@ fn macro_programs(em: &mut Emit, rng: &mut Rng, n: u64) {
             8 => format!("[{}, 7u, 7.0, 7]", leafs(rng)),
             _ => "l".to_string(),
         };
-        match rng.below(5) {
+        match rng.below(7) {
+            // the iteration variable mentioned only as the key of a map literal
+            5 => format!("{}.map({}, {{{}: {}}})", range, v, v, inner),
+            6 => format!("[{}.all({}, {{{}: true}}.size() == 1), {}.exists({}, {{{}: {}}}.size() > 1)]", range, v, v, range, v, v, v),
             0 => format!("{}.map({}, [{}, {}])", range, v, v, inner),
             1 => format!("{}.filter({}, {} == {} || {}.size() >= 0)", range, v, v, v, inner_list(&inner)),
             2 => format!("[{}.all({}, [{}].size() > 0), {}]", range, v, inner, leafs(rng)),
